@@ -26,7 +26,9 @@ Scn == [signResp : BOOLEAN, signAssert : BOOLEAN, enc : BOOLEAN, alg : Algs, bin
         tz : {"UTC", "east9", "west5"},
         \* how the IdP application spells the attribute names of the identity it hands over: as the attribute maps do, or
         \* in another letter case (GivenName, SN, MAIL) -- the SP reads the names of its own map either way
-        keyStyle : {"canonical", "caseVariant"},
+        \* "alias": the identity carries the mail address under two local names that the attribute maps send to the same wire
+        \* name (mail and rfc822Mailbox): two Attribute elements of one name arrive, the SP reads the union of their values
+        keyStyle : {"canonical", "caseVariant", "alias"},
         \* the subject identifier the IdP is asked to assert: plain ASCII, with characters outside the basic plane, padded
         \* with blanks (an identifier is data: " bob" and "bob" are two subjects), with markup characters
         subjClass : {"ascii", "astral", "padded", "markup"}]            \* the SP's accepted_time_diff: widens acceptance, never what is reported
@@ -42,6 +44,8 @@ Satisfies(s) == /\ (s.wantResp => RespSig(s) # "absent") /\ (s.wantAssert => Ass
 WellFormed(s) == /\ Satisfies(s)
                  /\ (s.vclass # "plain" => ~s.wantEither /\ s.nameid = "transient" /\ s.alg = "sha256" /\ ~s.unknownAttr)
                  /\ (s.unknownAttr => s.binding = "post" /\ ~s.enc)
+                 \* an alias name is released only to an SP that asks for nothing in particular (the release filter goes by local name)
+                 /\ (s.keyStyle = "alias" => s.unknownAttr)
                  /\ (s.authnCtx # "password_authority" => s.vclass = "plain" /\ ~s.wantEither /\ s.alg = "sha256" /\ ~s.unknownAttr /\ s.skew = 0)
                  /\ (s.idpPolicy # "defaultOnly" => s.vclass = "plain" /\ ~s.wantEither /\ s.alg = "sha256" /\ ~s.unknownAttr /\ s.skew = 0
                                                     /\ s.authnCtx = "password_authority")
